@@ -49,6 +49,9 @@ def run(ctx: Ctx) -> None:
                       "decoding writes through the shared OPCODES operand templates (operands are not deep-copied): the look-ahead decode of the next instruction "
                       "overwrites operands of the one being returned, so encode(decode(window)) != its own bytes", isa.OPCODES_PY)
     ctx.instance("C02.3/template-isolation", "OPCODES template fingerprint unchanged after decoding 90 cases (no state shared between decoded instructions)", 90, 90)
+    # encode(decode(b), addr) is evaluated at the sweep's addresses; that it cannot differ (or refuse) elsewhere is the address rule
+    from .c01 import address_independence
+    address_independence(ctx, py, rule="C02.4/address-independence")
     rows = isa.py_rows(py)
     accepted = [c for c in base if c.status == "ok"]
     ctx.need(len({c.opcode for c in base}) == 256, "sweep did not cover 256 opcodes")
